@@ -338,11 +338,6 @@ func c12(c *Ctx) {
 		if len(manual) == 0 {
 			c.R.Bad(load.FuncName(ft)+": manual policy", c.pos(ft.Pos()), "the Manual update policy is never tested")
 		} else {
-			rets := cfgx.ReturnsReachable(manual, nil)
-			for _, w := range directWrites(ft) {
-				r, _ := cfgx.ReachableFromEdges(manual, w, nil, nil)
-				c.R.Check(!r, site(w)+" not-under-manual", c.pos(w.Pos()), "no write is reachable under the Manual policy with a selected revision", "a Manual XR's revision reference can be rewritten")
-			}
 			// Manual ∧ referenced ⇒ pinned, with no further condition: every write
 			// lies beyond "no reference yet", "no policy" or "policy != Manual"
 			var notPinned []cfgx.Edge
@@ -370,6 +365,11 @@ func c12(c *Ctx) {
 					}
 				}
 			}
+			rets := cfgx.ReturnsReachable(manual, notPinned)
+			for _, w := range directWrites(ft) {
+				r, _ := cfgx.ReachableFromEdges(manual, w, notPinned, nil)
+				c.R.Check(!r, site(w)+" not-under-manual", c.pos(w.Pos()), "no write is reachable under the Manual policy with a selected revision", "a Manual XR's revision reference can be rewritten")
+			}
 			for _, w := range directWrites(ft) {
 				c.requireCross(site(w)+" only-when-not-pinned", w, notPinned, "no revision reference yet, no update policy, or policy != Manual (no other way past the pin)")
 			}
@@ -378,7 +378,7 @@ func c12(c *Ctx) {
 				// the revision returned was read by the pinned name
 				okName := false
 				for _, g := range calls(ft, clientGet) {
-					if r, _ := cfgx.ReachableFromEdges(manual, g, nil, nil); r {
+					if r, _ := cfgx.ReachableFromEdges(manual, g, notPinned, nil); r {
 						okName = flow.Default.Any(cfgx.CallArgs(g)[1], func(v ssa.Value) bool { return hasSuffixCall(v, ".GetCompositionRevisionReference") })
 					}
 				}
